@@ -405,7 +405,36 @@ func stripUnknown(m protoreflect.Message) {
 // mutateEncoding applies one of the C08 mutation operators.
 func mutateEncoding(t *rapid.T, b []byte) ([]byte, string) {
 	b = append([]byte{}, b...)
-	switch rapid.IntRange(0, 7).Draw(t, "mut") {
+	switch rapid.IntRange(0, 8).Draw(t, "mut") {
+	case 8: // a field with an ILLEGAL key - number 0, number 2^29, wire type 6 / 7 - and a well-formed payload, put at a
+		// field boundary (mostly in front: whatever follows, extension fields included, is still processed if it is accepted)
+		fs, err := refwire.Walk(b)
+		if err == nil {
+			pos := 0
+			if len(fs) > 0 && rapid.IntRange(0, 2).Draw(t, "illpos") == 0 {
+				pos = fs[rapid.IntRange(0, len(fs)-1).Draw(t, "illat")].End
+			}
+			wt := rapid.SampledFrom([]int{1, 2, 5, 0, 1, 2, 5, 6, 7}).Draw(t, "illwt")
+			num := uint64(rapid.SampledFrom([]int{0, 0, 0, 1 << 29, 1<<32 + 1}).Draw(t, "illnum"))
+			if wt >= 6 {
+				num = 1
+			}
+			ins := refwire.AppendVarint(nil, num<<3|uint64(wt))
+			switch wt {
+			case 0:
+				ins = append(ins, 0x07)
+			case 1:
+				ins = append(ins, 1, 2, 3, 4, 5, 6, 7, 8)
+			case 2:
+				ins = append(ins, 2, 0x08, 0x01)
+			case 5:
+				ins = append(ins, 1, 2, 3, 4)
+			default:
+				ins = append(ins, 0x00)
+			}
+			out := append(append(append([]byte{}, b[:pos]...), ins...), b[pos:]...)
+			return out, "illegal-key"
+		}
 	case 0:
 		if len(b) > 0 {
 			return b[:rapid.IntRange(0, len(b)-1).Draw(t, "trunc")], "truncate"
@@ -646,7 +675,7 @@ func TestC07(t *testing.T) {
 }
 
 func TestC08(t *testing.T) {
-	rec := ev.New("C08", ruleValues+"valid encodings are mutated (truncate at an offset, overwrite a byte with {00,7f,80,ff,b^1,b^2,b^4,b^80}, inflate a length prefix to {remaining+1, 2^31-1, 2^31, 2^32, 2^40, 2^63, 2^64-1}, change a key's wire type incl. groups at the top level or inside a nested payload / map entry, append garbage, a varint value with bits beyond 32 set, hostile length for an existing number, plain random bytes); messages nested 3000 levels deep through every self-recursive field; the quick tier also truncates at every offset and overwrites every byte of the sweep encodings of each type; oracle: returns (no panic), bytes allocated <= 4 KiB + len*(576+2*S), and when both decoders accept the messages are equal; non-trivial = the input is not a valid canonical encoding; distinct by (type, bytes)")
+	rec := ev.New("C08", ruleValues+"valid encodings are mutated (truncate at an offset, overwrite a byte with {00,7f,80,ff,b^1,b^2,b^4,b^80}, inflate a length prefix to {remaining+1, 2^31-1, 2^31, 2^32, 2^40, 2^63, 2^64-1}, change a key's wire type incl. groups at the top level or inside a nested payload / map entry, insert a field with an illegal key (number 0, number >= 2^29, wire type 6 / 7) and a well-formed payload at a field boundary, append garbage, a varint value with bits beyond 32 set, hostile length for an existing number, plain random bytes); messages nested 3000 levels deep through every self-recursive field; the quick tier also truncates at every offset and overwrites every byte of the sweep encodings of each type; oracle: returns (no panic), bytes allocated <= 4 KiB + len*(576+2*S), and when both decoders accept the messages are equal; non-trivial = the input is not a valid canonical encoding; distinct by (type, bytes)")
 	defer rec.Write()
 	useRecorder(rec)
 	defer func() { t.Log(rec.Summary()); fmt.Print(rec.SurveyReport()) }()
